@@ -258,8 +258,19 @@ func coqOptN(p bool, v uint64) string {
 	return fmt.Sprintf("(Some %d)", v)
 }
 
+// the documented rule for a subscription destination: scheme udp / http / https and a host
+// WITH a non-empty port.  For the destinations the generator uses the verdict is fixed here,
+// independently of the code, so a validateURL that starts accepting (or refusing) one of them
+// shows as a command the model rejects and the implementation applies (or vice versa)
+var destVerdict = map[string]bool{"udp://h1:9000": true, "http://h2:9001": true, "https://h3:9002": true, "ftp://h1:21": false,
+	"http://noport": false, "://bad": false, "udp://h9:1": true, "": false, "udp://example.com:": false, "https://[::1]:": false,
+	"udp://[::1]:8089": true, "http://h2:": false, "HTTP://h2:9001": true}
+
 func validURL(s string) bool {
-	// the real validateURL, reached through a scratch Data value: only the verdict is used
+	if v, ok := destVerdict[s]; ok {
+		return v
+	}
+	// any other text (older corpus entries): the real validateURL, reached through a scratch Data value
 	d := &meta.Data{}
 	err := d.CreateSubscription("\x00nodb", "", "", "", []string{s})
 	return err == nil || !strings.HasPrefix(err.Error(), "invalid subscription URL")
@@ -679,7 +690,7 @@ var metaHTTP = []string{"h1:8091", "h2:8091", "h3:8091", "h4:8091"}
 var cqPool = []string{"cq0", "cq1", ""}
 var queryPool = []string{"SELECT mean(v) INTO a FROM b GROUP BY time(1m)", "select MEAN(v) into a from b group by TIME(1m)", "SELECT max(v) INTO c FROM b GROUP BY time(5m)", ""}
 var subPool = []string{"s0", "s1", ""}
-var destPool = []string{"udp://h1:9000", "http://h2:9001", "https://h3:9002", "ftp://h1:21", "http://noport", "://bad", "udp://h9:1", ""}
+var destPool = []string{"udp://h1:9000", "http://h2:9001", "https://h3:9002", "ftp://h1:21", "http://noport", "://bad", "udp://h9:1", "", "udp://example.com:", "https://[::1]:", "udp://[::1]:8089", "http://h2:"}
 var durPool = []int64{0, 0, int64(time.Hour), int64(90 * time.Minute), int64(24 * time.Hour), int64(7 * 24 * time.Hour), int64(30 * time.Minute), -int64(time.Hour),
 	int64(200 * 24 * time.Hour), int64(2 * 24 * time.Hour), int64(time.Hour) - 1, 1, math.MaxInt64, math.MinInt64, int64(3*time.Hour) + 1}
 var sgdPool = []int64{0, 0, int64(time.Hour), int64(90 * time.Minute), int64(24 * time.Hour), int64(7 * 24 * time.Hour), int64(10 * time.Minute), -5,
